@@ -1488,7 +1488,7 @@ def do_call(apps, call, log, environ=None, path=None):
         body_out = ('ESCAPED:%s' % type(e).__name__).encode()
     finally:
         _tl.stack.pop()
-    hdrs = sorted([k, v] for k, v in st.get('h', []))
+    hdrs = sorted([k, v] for k, v in st.get('h', []) if k != 'Date')      # (the clock is not part of the comparison)
     w_status = fr.get('w_end', fr['w_status'])
     nobody = fr['method'] == 'HEAD' or w_status in (204, 304) or 100 <= w_status < 200
     rec = dict(kind='response', tok=tok, path=fr['path'], status=st.get('s'), hdrs=hdrs, body=body_out.decode('latin1'),
